@@ -560,6 +560,6 @@ func build(tier string) ([]runner.Instance, time.Duration) {
 }
 
 func main() {
-	runner.Main(runner.Options{Property: "C07", Level: "exploration", Build: build,
+	runner.Main(runner.Options{Property: "C07", Level: "exploration", Build: build, RacePoints: true,
 		Assume: []string{"model of sync/context/channels in verif/vs (DESIGN §2.2)", "quiescence = no other thread enabled, or only threads spinning in a cycle that changes no visible state and performs no plain write", "small scope: <=2 parked callers of one kind and <=3 enabling operations (burst/race), <=4 heterogeneous parked callers incl. parked iterators and <=2 operation threads (mixed)"}})
 }
